@@ -158,6 +158,30 @@ def check_freshness(chk, ex, found):
             _wrappers.row(chk, "HeavyHitters.%s:does-not-touch-the-cache-bookkeeping" % meth, not sets, [x[2] for x in sets], found)
 
 
+def check_getitem_any_cache(chk, ex, found):
+    """hh[key] is the kernel's answer for the current tables whatever an earlier query left in the
+    Python-side cache (a value remembered in candidate_set is stale after the next add or merge)"""
+    a, objs, _ = _glue.good_objects(ex, "HeavyHitters", "gi")
+    sref, st0 = objs[0]
+    st = st0.fork()
+    f = st.objs[sref.oid]["fields"]
+    f["candidate_set"] = st.new_obj("$counter", {"$entries": (), "$unknown": True})
+    nas, ths = z3.Int("n_added_sort_gi"), z3.Int("threshold_sort_gi")
+    f["n_added_sort"] = Sym(nas, "uint64")
+    f["threshold_sort"] = Sym(ths, "uint32")
+    k1 = _wrappers.key_sym("k1")
+    st.pc += [nas >= 0, nas < 2**64, ths >= 0, ths <= 2**32 - 1, X.BYTESLEN(k1.t) >= 0, X.BYTESLEN(k1.t) <= f["max_key_len"].t]
+    outs = _glue.call_method(ex, st, sref, "__getitem__", [k1])
+    ok, why = bool(outs), []
+    for o, e in outs:
+        ks = _wrappers.kernel_calls(e)
+        good = o.kind == "return" and [k[1] for k in ks] == ["heavyhitters._max_count"] and isinstance(o.value, Sym) and o.value.t.decl().name().startswith("ret_")
+        if not good:
+            ok = False
+            why.append("%s, kernel calls %s" % (o.kind, [k[1] for k in ks]))
+    _wrappers.row(chk, "HeavyHitters.__getitem__:asks-_max_count-whatever-the-cache-holds", ok, why[:3], found)
+
+
 def query_part(chk, found):
     """query() = most_common(k) of a cache that maps exactly the stored identities with
     _max_count >= threshold to that value and is regenerated whenever it is stale (also used by C03
@@ -172,6 +196,7 @@ def query_part(chk, found):
     try:
         check_query(chk, ex2, found)
         check_freshness(chk, ex2, found)
+        check_getitem_any_cache(chk, ex2, found)
     except X.Unsupported as e:
         chk.undecided.append(("HeavyHitters.query", "unsupported construct in glue: %s" % e))
     chk.assumptions.add("collections.Counter: finite map; most_common(k) = first k of the sort by count (ties in insertion order), a prefix of most_common(None)")
